@@ -26,7 +26,7 @@ func (r *Run) noPanic(res *OpResult) {
 // (property C03's clauses; also used by C13/C06/C16 for truthfulness).
 // strictRecovery: require the recovery-block count to equal the intact
 // count (false: only forbid over-reporting).
-func (r *Run) oracleVerify2(w *World, res *OpResult, t Truth2, strictRecovery bool) {
+func (r *Run) oracleVerify2(w *World, res *OpResult, t Truth2, strictRecovery bool, lowerToo bool) {
 	if !res.HasRes {
 		return
 	}
@@ -38,7 +38,7 @@ func (r *Run) oracleVerify2(w *World, res *OpResult, t Truth2, strictRecovery bo
 	if c.UsableDataShardCount > sc.Upper {
 		r.Violate("usable-above-upper", "Verify counts %d usable slices but only %d of %d slices have their content anywhere in the surviving files", c.UsableDataShardCount, sc.Upper, sc.N)
 	}
-	if c.UsableDataShardCount < sc.Lower {
+	if lowerToo && c.UsableDataShardCount < sc.Lower {
 		r.Violate("usable-below-lower", "Verify counts %d usable slices but %d of %d slices are cleanly present (intact file or non-overlapped occurrence)", c.UsableDataShardCount, sc.Lower, sc.N)
 	}
 	intact := len(t.IntactExps)
